@@ -88,6 +88,24 @@ def run(p, report, tier):
                     and isinstance(n.targets[0], ast.Tuple) and len(n.targets[0].elts) >= 2 \
                     and isinstance(n.targets[0].elts[1], ast.Name):
                 enc.add(n.targets[0].elts[1].id)  # classifiers' _validate_data returns encoded y
+        # flow-sensitive (line order): name -> [(line, is_encoder_output)] of its bindings
+        bindings = {}
+        for n in ast.walk(f.node):
+            if isinstance(n, ast.Assign):
+                is_enc = isinstance(n.value, ast.Call) and (
+                    (c01.callname(n.value) in ("fit_transform", "transform") and "le" in ast.unparse(n.value.func).lower())
+                    or (c01.callname(n.value) == "_validate_data" and f.cls is not None
+                        and p.is_subclass(f.cls, "SkactivemlClassifier")))
+                for t in n.targets:
+                    elts = t.elts if isinstance(t, (ast.Tuple, ast.List)) else [t]
+                    for i, e in enumerate(elts):
+                        if isinstance(e, ast.Name):
+                            enc_here = is_enc and (c01.callname(n.value) != "_validate_data" or i == 1)
+                            bindings.setdefault(e.id, []).append((n.lineno, enc_here))
+
+        def encoded_at(name, line):
+            prior = [b for b in bindings.get(name, []) if b[0] < line]
+            return bool(prior) and max(prior)[1]
         enc = closure_fw(enc, edges)
         for n in ast.walk(f.node):
             if not isinstance(n, ast.Call):
@@ -134,6 +152,10 @@ def run(p, report, tier):
             elif txt in NAN_TXT:
                 report.add("R9.1", ent, construct, f"{f.file}:{n.lineno}", False,
                            detail="NaN literal as sentinel instead of the configured missing_label")
+            elif isinstance(arr, ast.Name) and encoded_at(arr.id, n.lineno) and "missing_label" in txt:
+                report.add("R9.1", ent, construct, f"{f.file}:{n.lineno}", False,
+                           detail=f"`{arr.id}` is label-encoder output (missing = -1) but is partitioned with the raw "
+                                  f"sentinel `{txt}`: which samples count as labeled depends on the sentinel the user chose")
             else:
                 report.add("R9.1", ent, construct, f"{f.file}:{n.lineno}", True, detail=f"sentinel `{txt}`")
     report.analysed["sentinel_call_sites"] = n_sites
@@ -249,6 +271,12 @@ def run(p, report, tier):
             report.add("R9.3", f.qual, f"construction {site_id(n, 70)}", f"{f.file}:{n.lineno}", has,
                        detail="missing_label passed explicitly" if has else
                        f"{ci.name} is constructed with the NaN default sentinel")
+    # ---------------- R9.6 predictions are re-encoded originals: indices are decoded (shared with C11 R11.1)
+    from . import c11
+    report.rule("R9.6", "predict of every project classifier decodes a class index selected over costs / probabilities "
+                "through the label encoder (or classes_[.]) on every path before returning it, so predictions are "
+                "the re-encoded originals for any class naming (shared with C11 R11.1)", floor=3)
+    c11.check_index_decoded(p, report, c11.classifier_classes(p), "R9.6")
     report.assumptions += ["equality of outputs under order-preserving renaming is not decided",
                            "calls on model predictions and pure validators are outside R9.1"]
 
